@@ -1,6 +1,6 @@
 CONSTANTS
   NModels = 3
-  NOperators = 57
+  NOperators = 60
   MaxSite = 7
 INIT Init
 NEXT Next
